@@ -31,6 +31,18 @@ func CaseDir(name string) string {
 
 const DBName = "d1"
 
+// CreateDatabases creates the database the checks work in - and an idle one on
+// either side of it (in creation order and in name order): databases that
+// exist but are never written to. Start-up recovery walks over all of them.
+func CreateDatabases(eng *mk.Engine) error {
+	for _, n := range []string{"a_idle", DBName, "z_idle"} {
+		if err := eng.Exec("CREATE DATABASE " + n); err != nil {
+			return fmt.Errorf("CREATE DATABASE %s: %w", n, err)
+		}
+	}
+	return nil
+}
+
 // OpenFresh starts an engine in a fresh directory with one database selected.
 func OpenFresh(name string) (*mk.Engine, error) {
 	dir := CaseDir(name)
@@ -38,8 +50,8 @@ func OpenFresh(name string) (*mk.Engine, error) {
 	if err != nil {
 		return nil, err
 	}
-	if err := eng.Exec("CREATE DATABASE " + DBName); err != nil {
-		return nil, fmt.Errorf("CREATE DATABASE: %w", err)
+	if err := CreateDatabases(eng); err != nil {
+		return nil, err
 	}
 	if err := eng.Exec("USE " + DBName); err != nil {
 		return nil, fmt.Errorf("USE: %w", err)
